@@ -14,7 +14,7 @@ from . import reportlib
 from .common import Hist, make_cfg, method_tree, slot
 
 PROPS = ("C15",)
-BUDGET = {"quick": 900, "thorough": 3600}
+BUDGET = {"quick": 900, "thorough": 1500}
 CHUNK = 40
 ACC = {"a": ("X1", "H1"), "b": ("X1", "H2"), "c": ("X2", "H1"), "d": ("X2", "H2")}
 KINDS = {"B": ("IN", "BUY"), "I": ("IN", "INTEREST"), "S": ("OUT", "SELL"), "M": ("INTRA", "MOVE"), "G": ("OUT", "GIFT")}
